@@ -120,7 +120,9 @@ def build(repo, targets):
             exe = os.path.join(bdir, "%s.%s" % (t, dh))
             link = os.path.join(bdir, t)
             if not os.path.exists(exe):
-                extra = ["-fsanitize=fuzzer"] if t.startswith("fuzz_") else []
+                # fuzz targets compile the unit under test into their own translation unit (-I<repo>/src) so that libFuzzer's
+                # coverage feedback comes from gdstk's code; the rest links from the sanitised library
+                extra = ["-fsanitize=fuzzer", "-I" + os.path.join(repo, "src")] if t.startswith("fuzz_") else []
                 if gcc:
                     jobs.append((exe, ["g++"] + COMMON + inc + [src, os.path.join(bdir, "libgdstk_gcc.a")] + LIBS + ["-o", exe + ".tmp"]))
                 else:
@@ -171,7 +173,7 @@ def main():
             repo = args.pop(0)
         elif a == "--target":
             t = args.pop(0)
-            targets = ["gdstk_driver", "gdstk_driver_gcc"] if t == "all" else [t]
+            targets = ["gdstk_driver", "gdstk_driver_gcc", "fuzz_oasis_numbers"] if t == "all" else [t]
     print(build(os.path.abspath(repo), targets))
 
 
